@@ -451,7 +451,26 @@ def api_part(prop, tier, seed):
                           ["which nil values are valid is read from the guards and comments of the library's option functions"])
 
 
+NORM_OBLIGATIONS = [("NInit", "NInv", 0, "OK"), ("IndInit", "NInv", 1, "OK")] + [("IndInit", a, 1, "OK") for a in (
+    "ActExactBelowMinute", "ActCountsDown", "ActPositive", "ActFresh", "ActTolerant")] + [("IndInit", "ActTolerantStrict", 1, "ERROR")]
+
+
 def decor_part(prop, tier, seed):
+    from . import fillpart
+    # the time normalizers for every estimate, interval and parameter (NormInd.tla over the operators of Norm.tla, which
+    # Decor.tla enumerates and the driver replays): inductive invariant + what a call shows, and one claim that must be refuted
+    wd = core.workdir(prop + "a")
+    try:
+        proved = core.apalache(wd, ["Norm.tla", "NormInd.tla"], "NormInd", "NNext", NORM_OBLIGATIONS)
+    finally:
+        shutil.rmtree(wd, ignore_errors=True)
+    r = _decor_table(prop, tier, seed)
+    r["cov"]["unbounded_obligations_discharged_by_apalache"] = proved
+    r["lines"].append("%s %s normalizers: %d obligations discharged by Apalache for unbounded integers" % (prop, tier, len(proved)))
+    return r
+
+
+def _decor_table(prop, tier, seed):
     from . import fillpart
     return fillpart.table(prop, tier, seed, "MCDecor.tla", "DecorQuick.cfg", "Decor.cfg", "TestDecorCases", "DECOR",
                           "cases enumerated by TLC from Decor.tla: every sample sequence (n in {-1,0,1,3}, dur in {0,1,5}) of length <= MaxSamples "
